@@ -414,6 +414,56 @@ def gen_iterwindow(rng):
     return [dict(op="sched", setup=setup, actors=actors, schedule=sched, finish=g.ops, gc=False, nilempty=False)]
 
 
+def gen_manytables(rng):
+    """65..130 registered tables; a transaction over two tables whose positions are 64 (or 128) apart, another
+    one on one of the two, a third one elsewhere: whatever table-set bookkeeping WriteTxn uses must tell all
+    positions apart."""
+    g = DBGen(rng, "sched")
+    ntab = rng.choice([65, 66, 70, 129, 130])
+    for _ in range(ntab):
+        g.newtable()
+    d = 64 if ntab < 129 or rng.random() < 0.5 else 128
+    i = rng.randrange(0, ntab - d)
+    j = i + d
+    tx = g.begin([i, j])
+    g.add(op="insert", tx=tx, t=i, obj=simple_obj(g, 0, 1), guard=0, gsym="", w=0)
+    g.add(op="insert", tx=tx, t=j, obj=simple_obj(g, 1, 2), guard=0, gsym="", w=0)
+    g.commit(tx)
+    setup = g.ops
+    g.ops = []
+    pair = [i, j] if rng.random() < 0.5 else [j, i]
+
+    def prog(tabs, marker):
+        g.ntx += 1
+        tx = g.ntx
+        p = [dict(op="wtxn", tx=tx, tables=list(tabs))]
+        for t in sorted(set(tabs)):
+            p.append(dict(op="insert", tx=tx, t=t, obj=simple_obj(g, 2 + marker, marker + 1), guard=0, gsym="", w=0))
+        g.nsnap += 1
+        p.append(dict(op="commit", tx=tx, snap=g.nsnap))
+        return p
+
+    other = rng.choice([t for t in g.tables if t not in (i, j)])
+    actors = [dict(name="A", prog=prog(pair, 0)), dict(name="B", prog=prog([pair[1] if rng.random() < 0.8 else pair[0]], 1)),
+              dict(name="C", prog=prog([other], 2))]
+    first, second = ("A", "B") if rng.random() < 0.6 else ("B", "A")
+    # park the first one while it holds its locks (after WriteTxn returned or deep inside Commit), run the others
+    hold = rng.choice([4, 5, 6, 7, 8])
+    sched = [first] * hold + [second] * 12 + ["C"] * 20 + [first] * 30 + [second] * 30
+    for w in list(g.wtx):
+        g.wtx.pop(w)
+    s = g.snap()
+    for t in (i, j, other):
+        g.q(g.snap_src(s), t, "id", "all", [])
+        g.scalar(g.snap_src(s), t, "rev")
+    return [dict(op="sched", setup=setup, actors=actors, schedule=sched, finish=g.ops, gc=False, nilempty=False)]
+
+
+def generate_manytables(n, seed):
+    rng = random.Random(seed)
+    return [gen_manytables(rng) for _ in range(n)]
+
+
 def generate_directed(n, seed):
     rng = random.Random(seed)
     return [gen_directed(rng) if rng.random() < 0.7 else gen_iterwindow(rng) for _ in range(n)]
